@@ -1,9 +1,14 @@
-// C19 — Date <-> calendar: complete enumeration of days / seconds / zone offsets / fractions,
-// and bounded-exhaustive edit neighbourhoods of date strings for the parsers.
+// C19 — Date <-> calendar: complete enumeration of days / seconds / zone offsets / fractions / millisecond-rounding ties,
+// the same families again under a fixed non-UTC zone, and bounded-exhaustive edit neighbourhoods and structure
+// vectors of date strings for the parsers.
 #include <asl/Date.h>
 #include <time.h>
 #include <unistd.h>
 #include <math.h>
+#include <sys/resource.h>
+#include <sys/wait.h>
+#include <fcntl.h>
+#include <errno.h>
 #include "vf.h"
 #include "aslx.h"
 using namespace asl;
@@ -31,24 +36,67 @@ static void civil_from_days(int64_t z, int& y, int& m, int& d) {
 	y = (int)(yy + (m <= 2));
 }
 static int weekday_from_days(int64_t z) { return (int)(z >= -4 ? (z + 4) % 7 : (z + 5) % 7 + 6); }
+static int64_t fdiv(int64_t a, int64_t b) { int64_t q = a / b; if (a % b != 0 && ((a < 0) != (b < 0))) q--; return q; }
 
 static const int64_t DAY0 = -719162; // 0001-01-01
 static const int64_t DAYN = 2932896; // 9999-12-31
 
+// calendar fields of a whole second since the epoch, and their renderings
+struct Civ { int64_t day; int sod, y, m, d, hh, mi, ss, wd; };
+static Civ civ_of(int64_t secs) {
+	Civ c; c.day = fdiv(secs, 86400); c.sod = (int)(secs - c.day * 86400);
+	civil_from_days(c.day, c.y, c.m, c.d);
+	c.hh = c.sod / 3600; c.mi = c.sod / 60 % 60; c.ss = c.sod % 60; c.wd = weekday_from_days(c.day);
+	return c;
+}
+static std::string text_of(const Civ& c, Date::Format f, int msec, bool z) {
+	static const char* wdn[] = { "Sun", "Mon", "Tue", "Wed", "Thu", "Fri", "Sat" };
+	static const char* mnn[] = { "Jan", "Feb", "Mar", "Apr", "May", "Jun", "Jul", "Aug", "Sep", "Oct", "Nov", "Dec" };
+	std::string s;
+	switch (f) {
+	case Date::LONG: s = fmt("%04d-%02d-%02dT%02d:%02d:%02d", c.y, c.m, c.d, c.hh, c.mi, c.ss); break;
+	case Date::SHORT: s = fmt("%04d%02d%02dT%02d%02d%02d", c.y, c.m, c.d, c.hh, c.mi, c.ss); break;
+	case Date::FULL: s = fmt("%04d-%02d-%02dT%02d:%02d:%02d.%03d", c.y, c.m, c.d, c.hh, c.mi, c.ss, msec); break;
+	case Date::HTTP: return fmt("%s, %02d %s %04d %02d:%02d:%02d GMT", wdn[c.wd], c.d, mnn[c.m - 1], c.y, c.hh, c.mi, c.ss);
+	default: break;
+	}
+	return z ? s + "Z" : s;
+}
+
+// ---- the zone the process runs in: UTC (first pass) or a fixed offset without DST (second pass). Switched in the
+// coordinating process between vf::parallel calls (the workers are forked per call) and in a replay worker.
+static int ZOFF = 0;       // seconds east of UTC
+static std::string KP;     // case-string prefix of the pass
+static void set_zone(bool z) {
+	setenv("TZ", z ? "VRF-05" : "UTC", 1); tzset();
+	ZOFF = z ? 18000 : 0; KP = z ? "tz:" : "";
+	time_t x = 1000000000; struct tm l; localtime_r(&x, &l);
+	if (l.tm_gmtoff != ZOFF) { fprintf(stderr, "c19_date: zone switch to %s did not take effect\n", z ? "VRF-05" : "UTC"); _exit(2); }
+}
+
 static int C_EVAL, C_DISTINCT, C_FASTPATH, C_SLOWPATH, C_LEAPDAY, C_PARSE_VALID, C_PARSE_INVALID, C_FMTPARSE;
+static int C_ISO_VALID, C_ISO_INVALID, C_HTTP_VALID, C_TZPASS, C_TZ_OTHERDAY, C_TIE, C_TIE_SEC, C_TIE_DAY, C_TIE_YEAR, C_TIE_TZ,
+	C_NOSEC, C_NOSEC_Z, C_SPELL[3], C_FRACNEG, C_FRACLOCAL, C_SHAPE, C_SHAPE_VALID, C_LONGSTR;
 
 static void bad(const char* sig, const std::string& desc, const std::string& kase) { vf::violation(sig, desc, kase); }
+// ASan verdict of a value case (the robustness cases have their own in parse_one)
+static void oob_check(const std::string& kase) {
+	if (!vf::asan_tripped()) return;
+	bad("oob", "ASan " + vf::asan_what() + " in case " + kase, kase);
+	vf::asan_clear();
+}
 
-// all checks on one integer instant
-static void check_instant(int64_t day, int sod, bool formats) {
-	std::string kase = fmt("instant:%lld:%d", (long long)day, sod);
+// all checks on one integer instant; formats: 0 = fields only, 1 = + the UTC texts, 2 = + the local texts
+static void check_instant(int64_t day, int sod, int formats) {
+	std::string kase = KP + fmt("instant:%lld:%d", (long long)day, sod);
 	vf::cur(kase);
 	double t = (double)day * 86400.0 + sod;
 	int y, m, d; civil_from_days(day, y, m, d);
 	int hh = sod / 3600, mi = sod / 60 % 60, ss = sod % 60;
 	int wd = weekday_from_days(day);
 	vf::add(C_EVAL);
-	if (sod == 0) {
+	if (ZOFF) vf::add(C_TZPASS);
+	if (sod == 0 && !ZOFF) {
 		vf::add(C_DISTINCT);
 		// reference vs glibc (independent implementation)
 		time_t tt = (time_t)t; struct tm g; gmtime_r(&tt, &g);
@@ -64,106 +112,155 @@ static void check_instant(int64_t day, int sod, bool formats) {
 		bad("split", fmt("splitUTC(%.0f) = %d-%d-%d %d:%d:%d wd %d, expected %d-%d-%d %d:%d:%d wd %d", t, p.year, p.month, p.day, p.hours, p.minutes, p.seconds, p.weekDay, y, m, d, hh, mi, ss, wd), kase);
 	Date back(Date::UTC, y, m, d, hh, mi, ss);
 	if (!(back.time() == t)) bad("construct", fmt("Date(UTC,%d,%d,%d,%d,%d,%d).time() = %.3f, expected %.0f", y, m, d, hh, mi, ss, back.time(), t), kase);
-	Date backl(y, m, d, hh, mi, ss); // local zone = UTC in this harness
-	if (!(backl.time() == t)) bad("construct_local", fmt("Date(%d,%d,%d,%d,%d,%d).time() = %.3f (TZ=UTC), expected %.0f", y, m, d, hh, mi, ss, backl.time(), t), kase);
-	if (!formats) return;
-	static const char* wdn[] = { "Sun", "Mon", "Tue", "Wed", "Thu", "Fri", "Sat" };
-	static const char* mnn[] = { "Jan", "Feb", "Mar", "Apr", "May", "Jun", "Jul", "Aug", "Sep", "Oct", "Nov", "Dec" };
-	std::string exp[5];
-	exp[Date::LONG] = fmt("%04d-%02d-%02dT%02d:%02d:%02dZ", y, m, d, hh, mi, ss);
-	exp[Date::SHORT] = fmt("%04d%02d%02dT%02d%02d%02dZ", y, m, d, hh, mi, ss);
-	exp[Date::HTTP] = fmt("%s, %02d %s %04d %02d:%02d:%02d GMT", wdn[wd], d, mnn[m - 1], y, hh, mi, ss);
-	exp[Date::FULL] = fmt("%04d-%02d-%02dT%02d:%02d:%02d.000Z", y, m, d, hh, mi, ss);
-	Date::Format fs[] = { Date::LONG, Date::SHORT, Date::HTTP, Date::FULL };
-	for (int i = 0; i < 4; i++) {
-		String s = date.toUTCString(fs[i]);
-		vf::add(C_FMTPARSE);
-		if (vfx::S(s) != exp[fs[i]]) bad("format", fmt("toUTCString(%d) of %.0f = '%s', expected '%s'", (int)fs[i], t, *s, exp[fs[i]].c_str()), kase);
-		Date r;
-		{ vfx::Flush fl(s); r = Date(s); }
-		if (!(r.time() == t)) bad("format_parse", fmt("Date('%s').time() = %.3f, expected %.0f", *s, r.time(), t), kase);
-		if (fs[i] != Date::HTTP) { // local rendering (TZ=UTC): same text without the Z, parsed as local time
-			String l = date.toString(fs[i]);
-			Date rl(l);
-			if (vfx::S(l) + "Z" != exp[fs[i]] || !(rl.time() == t)) bad("format_parse_local", fmt("toString(%d) = '%s' -> %.3f, expected %.0f", (int)fs[i], *l, rl.time(), t), kase);
+	Date backl(y, m, d, hh, mi, ss); // the same fields read as local time denote the instant ZOFF earlier
+	if (!(backl.time() == t - ZOFF)) bad("construct_local", fmt("Date(%d,%d,%d,%d,%d,%d).time() = %.3f (zone offset %+d s), expected %.0f", y, m, d, hh, mi, ss, backl.time(), ZOFF, t - ZOFF), kase);
+	if (formats) {
+		Civ cu = civ_of((int64_t)t), cl = civ_of((int64_t)t + ZOFF);
+		if (ZOFF && cl.day != cu.day) vf::add(C_TZ_OTHERDAY);
+		Date::Format fs[] = { Date::LONG, Date::SHORT, Date::HTTP, Date::FULL };
+		for (int i = 0; i < 4; i++) {
+			String s = date.toUTCString(fs[i]);
+			std::string e = text_of(cu, fs[i], 0, true);
+			vf::add(C_FMTPARSE);
+			if (vfx::S(s) != e) bad("format", fmt("toUTCString(%d) of %.0f = '%s', expected '%s'", (int)fs[i], t, *s, e.c_str()), kase);
+			Date r;
+			{ vfx::Flush fl(s); r = Date(s); }
+			if (!(r.time() == t)) bad("format_parse", fmt("Date('%s').time() = %.3f, expected %.0f", *s, r.time(), t), kase);
+			if (formats >= 2 && fs[i] != Date::HTTP && cl.y <= 9999) { // local rendering: the fields of the instant shifted by the zone offset, no Z, parsed as local time
+				String l = date.toString(fs[i]);
+				Date rl;
+				{ vfx::Flush fl(l); rl = Date(l); }
+				std::string el = text_of(cl, fs[i], 0, false);
+				if (vfx::S(l) != el || !(rl.time() == t)) bad("format_parse_local", fmt("toString(%d) = '%s' -> %.3f, expected '%s' -> %.0f (zone offset %+d s)", (int)fs[i], *l, rl.time(), el.c_str(), t, ZOFF), kase);
+			}
 		}
 	}
+	oob_check(kase);
 }
 
-// FULL format with fractions: parse(format(t)) within a millisecond of t; the text is the calendar rendering of t rounded to ms
-static void check_fraction(double t) {
-	std::string kase = "frac:" + vf::hex(&t, sizeof t);
+// Instants with a fraction. "To the millisecond": the FULL text must be the rendering of a whole millisecond M that is the
+// truncation of t or a nearest millisecond of t (0.05 ms of slack for the implementation's own floating-point rounding), all
+// of its fields taken from that one M; the second-resolution texts and splitUTC must be the fields of the second of such an M.
+static void check_fraction(double t, bool light) {
+	std::string kase = KP + "frac:" + vf::hex(&t, sizeof t);
 	vf::cur(kase);
-	if (floor(t * 1000.0 + 0.5) >= ((double)DAYN + 1) * 86400000.0) return; // rounds into year 10000: outside the stated range
-	vf::add(C_EVAL); vf::add(C_DISTINCT);
+	long double x = (long double)t * 1000.0L;
+	int64_t M0 = (int64_t)floorl(x + 0.5L);
+	if (M0 - 1 < DAY0 * 86400000LL || M0 + 1 >= (DAYN + 1) * 86400000LL) return; // touches year 0 or 10000: outside the stated range
+	int64_t cand[3]; int nc = 0;
+	for (int64_t M = M0 - 1; M <= M0 + 1; M++)
+		if (M == (int64_t)floorl(x) || fabsl((long double)M - x) <= 0.55L) cand[nc++] = M;
+	vf::add(C_EVAL); if (!ZOFF) vf::add(C_DISTINCT); else vf::add(C_TZPASS);
+	if (fabsl(x - floorl(x) - 0.5L) < 0.01L) {
+		vf::add(C_TIE);
+		Civ a = civ_of(fdiv(cand[0], 1000)), b = civ_of(fdiv(cand[nc - 1], 1000));
+		if (a.sod != b.sod) vf::add(C_TIE_SEC);
+		if (a.day != b.day) vf::add(C_TIE_DAY);
+		if (a.y != b.y) vf::add(C_TIE_YEAR);
+		if (ZOFF) vf::add(C_TIE_TZ);
+	}
 	Date date(t);
 	String s = date.toUTCString(Date::FULL);
-	Date r(s);
-	if (!(fabs(r.time() - t) <= 0.001 + 1e-4)) bad("full_ms", fmt("Date(%.6f).toUTCString(FULL) = '%s' which parses to %.6f (off by %.4f s)", t, *s, r.time(), r.time() - t), kase);
-	// expected text: round to nearest millisecond, then split
-	double ms = floor(t * 1000.0 + 0.5);
-	int64_t tot = (int64_t)ms;
-	int64_t secs = tot >= 0 ? tot / 1000 : -((-tot + 999) / 1000);
-	int msec = (int)(tot - secs * 1000);
-	int64_t day = secs >= 0 ? secs / 86400 : -((-secs + 86399) / 86400);
-	int sod = (int)(secs - day * 86400);
-	int y, m, d; civil_from_days(day, y, m, d);
-	std::string e = fmt("%04d-%02d-%02dT%02d:%02d:%02d.%03dZ", y, m, d, sod / 3600, sod / 60 % 60, sod % 60, msec);
-	// an implementation may also truncate instead of rounding: tolerate the neighbouring millisecond only
-	if (vfx::S(s) != e) {
-		Date q(vfx::A(e));
-		if (!(fabs(r.time() - q.time()) <= 0.001 + 1e-6)) bad("full_text", fmt("Date(%.6f) FULL = '%s', expected '%s'", t, *s, e.c_str()), kase);
+	Date r(t);
+	if (!light) { vfx::Flush fl(s); r = Date(s); } // light: the text is compared below, parsing it back is left to the other families
+	if (!(fabs(r.time() - t) <= 0.001 + 1e-4)) bad("full_ms", fmt("Date(%.9f).toUTCString(FULL) = '%s' which parses to %.6f (off by %.4f s)", t, *s, r.time(), r.time() - t), kase);
+	bool ok = false; std::string exps;
+	for (int i = 0; i < nc; i++) {
+		std::string e = text_of(civ_of(fdiv(cand[i], 1000)), Date::FULL, (int)(cand[i] - fdiv(cand[i], 1000) * 1000), true);
+		if (vfx::S(s) == e) ok = true;
+		exps += (i ? "' or '" : "") + e;
 	}
-	// LONG (second resolution) must denote an instant within one second
-	String l = date.toUTCString(Date::LONG);
-	Date rl(l);
-	if (!(fabs(rl.time() - t) <= 1.0)) bad("long_sec", fmt("Date(%.6f).toUTCString(LONG) = '%s' which parses to %.3f", t, *l, rl.time()), kase);
+	if (!ok) bad("full_text", fmt("Date(%.9f) FULL = '%s', expected '%s'", t, *s, exps.c_str()), kase);
 	DateData p = date.splitUTC();
-	Date fromFields(Date::UTC, p.year, p.month, p.day, p.hours, p.minutes, p.seconds);
-	if (!(fabs(fromFields.time() - t) <= 1.0)) bad("split_frac", fmt("splitUTC(%.6f) = %d-%d-%d %d:%d:%d which is %.0f", t, p.year, p.month, p.day, p.hours, p.minutes, p.seconds, fromFields.time()), kase);
+	ok = false;
+	for (int i = 0; i < nc; i++) {
+		Civ c = civ_of(fdiv(cand[i], 1000));
+		if (p.year == c.y && p.month == c.m && p.day == c.d && p.hours == c.hh && p.minutes == c.mi && p.seconds == c.ss && p.weekDay == c.wd) ok = true;
+	}
+	if (!ok) { Civ c = civ_of(fdiv(M0, 1000)); bad("split_frac", fmt("splitUTC(%.9f) = %d-%d-%d %d:%d:%d wd %d, expected %d-%d-%d %d:%d:%d wd %d (or the neighbouring second)", t, p.year, p.month, p.day, p.hours, p.minutes, p.seconds, p.weekDay, c.y, c.m, c.d, c.hh, c.mi, c.ss, c.wd), kase); }
+	if (!light) {
+		Date::Format fs[] = { Date::LONG, Date::SHORT, Date::HTTP };
+		for (int k = 0; k < 3; k++) {
+			String l = date.toUTCString(fs[k]);
+			ok = false;
+			for (int i = 0; i < nc; i++) if (vfx::S(l) == text_of(civ_of(fdiv(cand[i], 1000)), fs[k], 0, true)) ok = true;
+			Date rl;
+			{ vfx::Flush fl(l); rl = Date(l); }
+			if (!ok || !(fabs(rl.time() - t) <= 1.0)) bad("long_sec", fmt("Date(%.9f).toUTCString(%d) = '%s' which parses to %.3f", t, (int)fs[k], *l, rl.time()), kase);
+		}
+		Date fromFields(Date::UTC, p.year, p.month, p.day, p.hours, p.minutes, p.seconds);
+		if (!(fabs(fromFields.time() - t) <= 1.0)) bad("split_frac", fmt("splitUTC(%.9f) = %d-%d-%d %d:%d:%d which is %.0f", t, p.year, p.month, p.day, p.hours, p.minutes, p.seconds, fromFields.time()), kase);
+		if (civ_of(fdiv(M0, 1000) + ZOFF + 1).y <= 9999) { // local FULL text -> parse as local, to the millisecond
+			String lf = date.toString(Date::FULL);
+			Date rf;
+			{ vfx::Flush fl(lf); rf = Date(lf); }
+			if (!(fabs(rf.time() - t) <= 0.001 + 1e-4)) bad("full_ms_local", fmt("Date(%.9f).toString(FULL) = '%s' which parses to %.6f (zone offset %+d s)", t, *lf, rf.time(), ZOFF), kase);
+		}
+	}
+	oob_check(kase);
+}
+// the doubles from `steps` below to `steps` above the double nearest to a decimal tie
+static void ties(double base, int steps, bool light) {
+	double x = base;
+	for (int i = 0; i < steps; i++) x = nextafter(x, -INFINITY);
+	for (int k = 0; k <= 2 * steps; k++) { check_fraction(x, light); x = nextafter(x, INFINITY); }
 }
 
 static void check_zone(int offmin, int spelling, int64_t day, int sod) {
-	std::string kase = fmt("zone:%d:%d:%lld:%d", offmin, spelling, (long long)day, sod);
+	std::string kase = KP + fmt("zone:%d:%d:%lld:%d", offmin, spelling, (long long)day, sod);
 	vf::cur(kase);
-	vf::add(C_EVAL); vf::add(C_DISTINCT);
+	vf::add(C_EVAL); if (!ZOFF) vf::add(C_DISTINCT); else vf::add(C_TZPASS);
+	vf::add(C_SPELL[spelling]);
 	int y, m, d; civil_from_days(day, y, m, d);
 	int a = abs(offmin);
 	char sg = offmin < 0 ? '-' : '+';
 	std::string z = spelling == 0 ? fmt("%c%02d:%02d", sg, a / 60, a % 60) : spelling == 1 ? fmt("%c%02d%02d", sg, a / 60, a % 60) : fmt("%c%02d", sg, a / 60);
 	if (spelling == 2) offmin = (offmin < 0 ? -1 : 1) * (a / 60) * 60;
-	for (int basic = 0; basic < 2; basic++) {
-		std::string txt = basic ? fmt("%04d%02d%02dT%02d%02d%02d", y, m, d, sod / 3600, sod / 60 % 60, sod % 60) : fmt("%04d-%02d-%02dT%02d:%02d:%02d", y, m, d, sod / 3600, sod / 60 % 60, sod % 60);
-		String s = vfx::A(txt + z);
-		Date r;
-		{ vfx::Flush fl(s); r = Date(s); }
-		double exp = (double)day * 86400.0 + sod - offmin * 60.0;
-		if (!(r.time() == exp)) bad("zone", fmt("Date('%s').time() = %.3f, expected %.0f", *s, r.time(), exp), kase);
-	}
+	for (int basic = 0; basic < 2; basic++)
+		for (int nosec = 0; nosec < (sod % 60 == 0 ? 2 : 1); nosec++) { // a time without seconds ("hh:mm", "hhmm") where the second is 0
+			std::string txt = basic ? fmt("%04d%02d%02dT%02d%02d", y, m, d, sod / 3600, sod / 60 % 60) : fmt("%04d-%02d-%02dT%02d:%02d", y, m, d, sod / 3600, sod / 60 % 60);
+			if (!nosec) txt += fmt(basic ? "%02d" : ":%02d", sod % 60); else vf::add(C_NOSEC);
+			double base = (double)day * 86400.0 + sod;
+			// numeric offset; for offset 0 in the first spelling also the "Z" and the zone-less (local time) forms
+			for (int form = 0; form < (offmin == 0 && spelling == 0 && a == 0 ? 3 : 1); form++) {
+				String s = vfx::A(txt + (form == 0 ? z : form == 1 ? "Z" : ""));
+				double exp = form == 0 ? base - offmin * 60.0 : form == 1 ? base : base - ZOFF;
+				if (nosec && form) vf::add(C_NOSEC_Z);
+				Date r;
+				{ vfx::Flush fl(s); r = Date(s); }
+				if (!(r.time() == exp)) bad("zone", fmt("Date('%s').time() = %.3f, expected %.0f (zone offset of the process %+d s)", *s, r.time(), exp, ZOFF), kase);
+			}
+		}
+	oob_check(kase);
 }
 
 static void check_fracdigits(int ndig, int pattern, int64_t day, int sod) {
-	std::string kase = fmt("fracdigits:%d:%d:%lld:%d", ndig, pattern, (long long)day, sod);
+	std::string kase = KP + fmt("fracdigits:%d:%d:%lld:%d", ndig, pattern, (long long)day, sod);
 	vf::cur(kase);
-	vf::add(C_EVAL); vf::add(C_DISTINCT);
+	vf::add(C_EVAL); if (!ZOFF) vf::add(C_DISTINCT); else vf::add(C_TZPASS);
 	static const char* pats[] = { "123456789", "999999999", "000000001", "500000000", "100000000", "049999999" };
 	std::string digs = std::string(pats[pattern]).substr(0, ndig);
 	double frac = atof(("0." + digs).c_str());
 	int y, m, d; civil_from_days(day, y, m, d);
-	const char* zs[] = { "Z", "+01:30", "" };
-	for (int zi = 0; zi < 3; zi++)
+	static const char* zs[] = { "Z", "+01:30", "", "-01:30", "+0130", "-01", "+00:00", "-2359" };
+	const int east[] = { 0, 5400, ZOFF, -5400, 5400, -3600, 0, -86340 }; // the text shows the time of a zone that many seconds east of UTC
+	for (int zi = 0; zi < 8; zi++)
 		for (int basic = 0; basic < 2; basic++) {
 			std::string txt = (basic ? fmt("%04d%02d%02dT%02d%02d%02d", y, m, d, sod / 3600, sod / 60 % 60, sod % 60) : fmt("%04d-%02d-%02dT%02d:%02d:%02d", y, m, d, sod / 3600, sod / 60 % 60, sod % 60)) + "." + digs + zs[zi];
 			String s = vfx::A(txt);
 			Date r;
 			{ vfx::Flush fl(s); r = Date(s); }
-			double exp = (double)day * 86400.0 + sod + frac - (zi == 1 ? 5400 : 0);
-			if (!(fabs(r.time() - exp) < 1e-4)) bad("fracdigits", fmt("Date('%s').time() = %.9f, expected %.9f", *s, r.time(), exp), kase);
+			double exp = (double)day * 86400.0 + sod + frac - east[zi];
+			if (zs[zi][0] == '-') vf::add(C_FRACNEG);
+			if (!zs[zi][0]) vf::add(C_FRACLOCAL);
+			// the statement promises the millisecond: a parser that keeps only three digits is accepted
+			if (!(fabs(r.time() - exp) < 0.001 + 1e-6)) bad("fracdigits", fmt("Date('%s').time() = %.9f, expected %.9f", *s, r.time(), exp), kase);
 		}
+	oob_check(kase);
 }
 
 // parse robustness: must terminate, stay in bounds (ASan + poisoned slack), give invalid or a value
-static void parse_one(const std::string& txt, int mode) {
+static double parse_one(const std::string& txt, int mode) {
 	vf::cur_sig("parse_crash");
 	String s = vfx::A(txt);
 	vf::asan_clear();
@@ -179,11 +276,16 @@ static void parse_one(const std::string& txt, int mode) {
 		}
 	}
 	if (v != v) vf::add(C_PARSE_INVALID); else vf::add(C_PARSE_VALID);
+	if (mode == 0) {
+		if (v != v) vf::add(C_ISO_INVALID); else if (txt[0] > 'A' && txt[0] < 'Z') vf::add(C_HTTP_VALID); else vf::add(C_ISO_VALID);
+		if (txt.size() >= 32) vf::add(C_LONGSTR);
+	}
 	vf::add(C_EVAL);
 	if (vf::asan_tripped()) {
 		bad(mode == 0 ? "parse_oob" : "parsefmt_oob", "ASan " + vf::asan_what() + " while parsing '" + txt + "'" + (mode ? fmt(" with format #%d", mode) : std::string()), fmt("parse:%d:", mode) + vf::hex(txt));
 		vf::asan_clear();
 	}
+	return v;
 }
 
 static const char ALPHA[] = "019TZ:-+. aGM,";
@@ -209,35 +311,140 @@ static bool edit(std::string& s, int pos, int kind, char c) {
 	s.insert(pos, 1, c); return true;
 }
 
-static void run_case(const std::string& k) {
-	if (k.compare(0, 8, "instant:") == 0) { long long d; int s; sscanf(k.c_str() + 8, "%lld:%d", &d, &s); check_instant(d, s, true); }
-	else if (k.compare(0, 5, "frac:") == 0) { std::string b = vf::unhex(k.substr(5)); double t; memcpy(&t, b.data(), 8); check_fraction(t); }
+// Structure vectors for the ISO parser: a body of '1' digits of length 8..22 in which the positions the parser inspects for
+// structure (4, 7: '-' of the extended date; 8, 10: 'T'; 13, 15, 16, 19: ':' / seconds / '.' / zone of either layout) take
+// every combination of classes, followed by every tail of a fixed list (zone forms, fractions, up to total length 40).
+static const int SPOS[] = { 4, 7, 8, 10, 13, 15, 16, 19 };
+static const int NSPOS = 8;
+static const char* TAILS[] = { "", "Z", "+01:30", "-0130", "+01", ".25", ".1234567890123456Z", "a",
+                               "+", "-01:3", ".", ".5+01:30", "Z1", " GMT", "+01:30:00", "T11:11:11Z" };
+static void shape_family(int lb, uint64_t vec, const char* cls, int ncls, int ntails) {
+	std::string body(lb, '1');
+	for (int i = 0; i < NSPOS && SPOS[i] < lb; i++) { body[SPOS[i]] = cls[vec % ncls]; vec /= ncls; }
+	for (int k = 0; k < ntails; k++) {
+		vf::add(C_SHAPE);
+		double v = parse_one(body + TAILS[k], 0);
+		if (v == v) vf::add(C_SHAPE_VALID);
+	}
+}
+
+// ---- determinism of the HTTP-date path. It works on Strings derived from the input (split parts), whose slack the Flush device
+// cannot poison: a read beyond the NUL of such a part is invisible to ASan but makes the result depend on stale heap bytes.
+// The HTTP-shaped strings of the template neighbourhoods are parsed again in child processes of this executable that run with a
+// different ASan malloc fill byte (the default 0xbe, '0' and ':'); all three must give the same result for every string.
+static void for_each_http_string(bool T, const std::string& only, const std::function<void(const std::string&)>& cb) {
+	if (!only.empty()) { cb(only); return; }
+	std::vector<std::string> tp = templates();
+	auto emit = [&](const std::string& s) { if (!s.empty() && s[0] > 'A' && s[0] < 'Z') cb(s); };
+	for (size_t t = 0; t < tp.size(); t++) {
+		const std::string& base = tp[t];
+		for (int k = 0; k < 16; k++) emit(base + TAILS[k]);
+		for (int p1 = 0; p1 <= (int)base.size(); p1++) {
+			emit(base.substr(0, p1));
+			for (int k1 = 0; k1 < 3; k1++) for (int c1 = 0; c1 < (k1 == 1 ? 1 : NALPHA); c1++) {
+				std::string s1 = base;
+				if (!edit(s1, p1, k1, ALPHA[c1])) continue;
+				emit(s1);
+				int lim = T ? (int)s1.size() : std::min((int)s1.size(), p1 + 6);
+				for (int p2 = p1; p2 <= lim; p2++)
+					for (int k2 = 0; k2 < 3; k2++) for (int c2 = 0; c2 < (k2 == 1 ? 1 : NALPHA); c2++) {
+						std::string s2 = s1;
+						if (edit(s2, p2, k2, ALPHA[c2])) emit(s2);
+					}
+			}
+		}
+	}
+}
+static const int DETM_FILLS[] = { 0xbe, '0', ':' };
+// child: argv = --detm-child <fill> <outfile> <tier> [<hex of a single string>]; writes the fill byte it observes, then one double per string
+static int detm_child(int argc, char** argv) {
+	if (argc < 5) return 2;
+	FILE* f = fopen(argv[3], "wb");
+	if (!f) return 2;
+	volatile unsigned char* probe = (volatile unsigned char*)malloc(48);
+	unsigned char seen = probe[40];
+	free((void*)probe);
+	fwrite(&seen, 1, 1, f);
+	std::string only = argc > 5 ? vf::unhex(argv[5]) : std::string();
+	for_each_http_string(std::string(argv[4]) == "thorough", only, [&](const std::string& s) { double v = Date(vfx::A(s)).time(); fwrite(&v, sizeof v, 1, f); });
+	fclose(f);
+	return 0;
+}
+struct Detm { pid_t pid[3]; std::string file[3]; };
+static Detm detm_start(const std::string& only) {
+	Detm d;
+	for (int i = 0; i < 3; i++) {
+		d.file[i] = vf::scratch_dir() + fmt("/detm.%d", i);
+		fflush(stdout); fflush(stderr);
+		d.pid[i] = fork();
+		if (d.pid[i] == 0) {
+			const char* old = getenv("ASAN_OPTIONS");
+			std::string o = std::string(old ? old : "") + fmt("%smalloc_fill_byte=%d:max_malloc_fill_size=65536", old && *old ? ":" : "", DETM_FILLS[i]);
+			setenv("ASAN_OPTIONS", o.c_str(), 1);
+			int fd = open("/dev/null", O_WRONLY); if (fd >= 0) { dup2(fd, 2); close(fd); } // ASan reports of the children: the main run has the oracle for those
+			std::string fill = fmt("%d", DETM_FILLS[i]), hx = vf::hex(only);
+			execl("/proc/self/exe", "c19_date", "--detm-child", fill.c_str(), d.file[i].c_str(), vf::opt.tier.c_str(), only.empty() ? (char*)0 : hx.c_str(), (char*)0);
+			_exit(3);
+		}
+	}
+	return d;
+}
+static int C_DETM;
+static void detm_finish(Detm& d, const std::string& only) {
+	std::vector<double> v[3];
+	for (int i = 0; i < 3; i++) {
+		int st = 0;
+		while (waitpid(d.pid[i], &st, 0) < 0 && errno == EINTR) {}
+		FILE* f = fopen(d.file[i].c_str(), "rb");
+		unsigned char seen = 0;
+		if (!f || fread(&seen, 1, 1, f) != 1 || !(WIFEXITED(st) && WEXITSTATUS(st) == 0)) { fprintf(stderr, "c19_date: determinism child %d failed (status %d)\n", i, st); _exit(2); }
+		if (vf::have_asan() && seen != DETM_FILLS[i]) { fprintf(stderr, "c19_date: determinism child %d: malloc fill byte is %02x, wanted %02x\n", i, seen, DETM_FILLS[i]); _exit(2); }
+		double x;
+		while (fread(&x, sizeof x, 1, f) == 1) v[i].push_back(x);
+		fclose(f); remove(d.file[i].c_str());
+	}
+	size_t idx = 0; int reported = 0;
+	for_each_http_string(vf::opt.thorough(), only, [&](const std::string& s) {
+		size_t i = idx++;
+		if (i >= v[0].size() || i >= v[1].size() || i >= v[2].size()) return;
+		vf::add(C_DETM); vf::add(C_EVAL);
+		bool same = true;
+		for (int k = 1; k < 3; k++) if (memcmp(&v[0][i], &v[k][i], sizeof(double)) != 0 && !(v[0][i] != v[0][i] && v[k][i] != v[k][i])) same = false;
+		if (!same && reported++ < 20)
+			bad("parse_nondeterministic", fmt("Date('%s').time() depends on uninitialised heap bytes: %.3f / %.3f / %.3f with malloc fill 0xbe / '0' / ':' (a part of the string is read beyond its end)", s.c_str(), v[0][i], v[1][i], v[2][i]), "detm:" + vf::hex(s));
+	});
+	if (idx != v[0].size() || idx != v[1].size() || idx != v[2].size()) { fprintf(stderr, "c19_date: determinism children returned %zu/%zu/%zu results for %zu strings\n", v[0].size(), v[1].size(), v[2].size(), idx); _exit(2); }
+}
+
+static void run_case(std::string k) {
+	if (k.compare(0, 3, "tz:") == 0) { set_zone(true); k = k.substr(3); }
+	if (k.compare(0, 8, "instant:") == 0) { long long d; int s; sscanf(k.c_str() + 8, "%lld:%d", &d, &s); check_instant(d, s, 2); }
+	else if (k.compare(0, 5, "frac:") == 0) { std::string b = vf::unhex(k.substr(5)); double t; memcpy(&t, b.data(), 8); check_fraction(t, false); }
 	else if (k.compare(0, 5, "zone:") == 0) { int o, sp, s; long long d; sscanf(k.c_str() + 5, "%d:%d:%lld:%d", &o, &sp, &d, &s); check_zone(o, sp, d, s); }
 	else if (k.compare(0, 11, "fracdigits:") == 0) { int n, p, s; long long d; sscanf(k.c_str() + 11, "%d:%d:%lld:%d", &n, &p, &d, &s); check_fracdigits(n, p, d, s); }
 	else if (k.compare(0, 6, "parse:") == 0) { int mode = atoi(k.c_str() + 6); parse_one(vf::unhex(k.substr(k.find(':', 6) + 1)), mode); }
 }
 
 int main(int argc, char** argv) {
+	if (argc > 1 && strcmp(argv[1], "--detm-child") == 0) return detm_child(argc, argv);
 	vf::init(argc, argv, "C19", "c19_date");
 	C_EVAL = vf::counter("evaluations"); C_DISTINCT = vf::counter("distinct_nontrivial");
 	C_FASTPATH = vf::counter("w.days_in_1904_2099_fast_path"); C_SLOWPATH = vf::counter("w.days_in_400_100_4_block_path"); C_LEAPDAY = vf::counter("w.leap_days");
 	C_PARSE_VALID = vf::counter("w.parse_gave_value"); C_PARSE_INVALID = vf::counter("w.parse_gave_invalid"); C_FMTPARSE = vf::counter("format_parse_roundtrips");
+	C_ISO_VALID = vf::counter("w.iso_parser_gave_value"); C_ISO_INVALID = vf::counter("w.iso_parser_gave_invalid"); C_HTTP_VALID = vf::counter("w.http_shape_gave_value");
+	C_TZPASS = vf::counter("w.cases_under_fixed_offset_zone"); C_TZ_OTHERDAY = vf::counter("w.zone_local_date_differs_from_utc_date");
+	C_TIE = vf::counter("w.instants_at_ms_rounding_tie"); C_TIE_SEC = vf::counter("w.tie_between_two_seconds"); C_TIE_DAY = vf::counter("w.tie_between_two_days");
+	C_TIE_YEAR = vf::counter("w.tie_between_two_years"); C_TIE_TZ = vf::counter("w.tie_under_fixed_offset_zone");
+	C_NOSEC = vf::counter("w.iso_time_without_seconds"); C_NOSEC_Z = vf::counter("w.iso_time_without_seconds_Z_or_local");
+	C_SPELL[0] = vf::counter("w.offset_spelled_hh_colon_mm"); C_SPELL[1] = vf::counter("w.offset_spelled_hhmm"); C_SPELL[2] = vf::counter("w.offset_spelled_hh");
+	C_FRACNEG = vf::counter("w.fraction_with_negative_offset"); C_FRACLOCAL = vf::counter("w.fraction_without_zone");
+	C_SHAPE = vf::counter("w.structure_vector_strings"); C_SHAPE_VALID = vf::counter("w.structure_vector_gave_value"); C_LONGSTR = vf::counter("w.strings_of_length_32_to_40");
+	C_DETM = vf::counter("w.http_strings_compared_under_three_heap_fills");
+	if (vf::opt.replay && vf::opt.kase.compare(0, 5, "detm:") == 0) { std::string one = vf::unhex(vf::opt.kase.substr(5)); Detm d = detm_start(one); detm_finish(d, one); return vf::finish(); }
 	if (vf::opt.replay) { vf::parallel(1, [&](uint64_t) { run_case(vf::opt.kase); }); return vf::finish(); }
 	bool T = vf::opt.thorough();
 
-	// (a) every day of years 1..9999 at 00:00:00, 12:00:00, 23:59:59 (+ more times of day in the thorough tier)
-	uint64_t ndays = (uint64_t)(DAYN - DAY0 + 1);
-	const uint64_t CH = 4096;
-	vf::parallel((ndays + CH - 1) / CH, [&](uint64_t blk) {
-		static const int sods_q[] = { 0, 43200, 86399 };
-		static const int sods_t[] = { 0, 1, 59, 60, 3599, 3600, 43199, 43200, 86340, 86399 };
-		const int* sods = T ? sods_t : sods_q; int ns = T ? 10 : 3;
-		for (uint64_t i = blk * CH; i < (blk + 1) * CH && i < ndays; i++)
-			for (int k = 0; k < ns; k++) check_instant(DAY0 + (int64_t)i, sods[k], true);
-	});
-	vf::setinfo("days_enumerated", fmt("%llu", (unsigned long long)ndays));
-
-	// (b) every second of 200 fixed days (leap days, century / 400-year edges, fast-path limits, year ends)
+	// the fixed days of (b): leap days, century / 400-year edges, fast-path limits, year ends; 200 DISTINCT days
 	std::vector<int64_t> days;
 	int ys[] = { 1, 4, 100, 400, 1600, 1700, 1900, 1903, 1904, 1970, 1972, 2000, 2038, 2099, 2100, 2400, 9996, 9999 };
 	for (size_t i = 0; i < sizeof ys / sizeof *ys; i++) {
@@ -245,10 +452,9 @@ int main(int argc, char** argv) {
 		days.push_back(days_from_civil(y, 1, 1)); days.push_back(days_from_civil(y, 2, 28)); days.push_back(days_from_civil(y, 3, 1));
 		days.push_back(days_from_civil(y, 12, 31)); days.push_back(days_from_civil(y, 3, 1) - 1); days.push_back(days_from_civil(y, 7, 31));
 	}
-	for (int k = 0; days.size() < 200; k++) days.push_back(DAY0 + (int64_t)k * 18397 + 11);
-	vf::parallel(days.size(), [&](uint64_t i) { for (int s = 0; s < 86400; s++) check_instant(days[i], s, T || s % 61 == 0); });
-
-	// (c) FULL format around second/day/year boundaries with fractions
+	std::sort(days.begin(), days.end()); days.erase(std::unique(days.begin(), days.end()), days.end());
+	for (int k = 0; days.size() < 200; k++) { int64_t d = DAY0 + (int64_t)k * 18397 + 11; if (std::find(days.begin(), days.end(), d) == days.end()) days.push_back(d); }
+	// the bases of (c): second / day / year boundaries
 	std::vector<double> bases;
 	int by[] = { 1, 1600, 1900, 1904, 1969, 1970, 1971, 2000, 2024, 2099, 2100, 9999 };
 	for (size_t i = 0; i < sizeof by / sizeof *by; i++)
@@ -257,22 +463,87 @@ int main(int argc, char** argv) {
 			int sods[] = { 0, 1, 59, 60, 3599, 3600, 43200, 86398, 86399 };
 			for (size_t k = 0; k < sizeof sods / sizeof *sods; k++) bases.push_back((double)d * 86400.0 + sods[k]);
 		}
-	static const double fr[] = { 0, .0004, .0006, .001, .25, .4994, .4996, .5, .75, .999, .9994, .9996, .99996 };
-	vf::parallel(bases.size(), [&](uint64_t i) { for (size_t k = 0; k < sizeof fr / sizeof *fr; k++) check_fraction(bases[i] + fr[k]); });
+	uint64_t ndays = (uint64_t)(DAYN - DAY0 + 1);
+	const uint64_t CH = 4096;
+	vf::setinfo("days_enumerated", fmt("%llu", (unsigned long long)ndays));
+	vf::setinfo("distinct_fixed_days", fmt("%llu", (unsigned long long)days.size()));
 
-	// (d) every zone offset -23:59 .. +23:59, three spellings, on a few instants
-	vf::parallel(2 * 1439 + 1, [&](uint64_t i) {
-		int off = (int)i - 1439;
-		int64_t ds[] = { days_from_civil(2021, 11, 29), days_from_civil(1970, 1, 1), days_from_civil(2000, 2, 29), days_from_civil(1, 1, 2), days_from_civil(9999, 12, 30) };
-		for (int sp = 0; sp < 3; sp++) for (size_t k = 0; k < 5; k++) { check_zone(off, sp, ds[k], 0); check_zone(off, sp, ds[k], 84670); }
-	}, 32);
+	Detm detm = detm_start(""); // runs beside the families below; collected at the end
+	double tph = vf::now_s(), cph = 0; std::string phases; // wall / CPU seconds per family (evidence only)
+	auto phase = [&](const char* name) {
+		struct rusage ru; getrusage(RUSAGE_CHILDREN, &ru);
+		double n = vf::now_s(), c = ru.ru_utime.tv_sec + ru.ru_stime.tv_sec + 1e-6 * (ru.ru_utime.tv_usec + ru.ru_stime.tv_usec);
+		phases += fmt("%s%s=%.0f/%.0f", phases.empty() ? "" : " ", name, n - tph, c - cph); tph = n; cph = c;
+	};
+	for (int pass = 0; pass < 2; pass++) {
+		// pass 0: TZ=UTC. pass 1: the same value families under TZ=VRF-05 (UTC+05:00, no DST), where UTC and local time differ:
+		// a UTC path that consults the local zone, or a local path that does not, gives a wrong instant or text here.
+		set_zone(pass == 1);
+		bool Z = pass == 1;
 
-	// (e) fractional seconds of 1..9 digits
-	vf::parallel(9 * 6, [&](uint64_t i) { check_fracdigits((int)(i / 6) + 1, (int)(i % 6), days_from_civil(2021, 11, 29), 84670); check_fracdigits((int)(i / 6) + 1, (int)(i % 6), days_from_civil(1969, 12, 31), 86399); });
+		// (a) every day of years 1..9999 at 00:00:00, 12:00:00, 23:59:59 (+ more times of day in the thorough tier); quick renders the
+		//     local texts at 12:00:00 only. Zone pass: every day at 20:00:00 UTC (= 01:00 of the next local day); quick without the texts
+		vf::parallel((ndays + CH - 1) / CH, [&](uint64_t blk) {
+			static const int sods_q[] = { 0, 43200, 86399 };
+			static const int sods_t[] = { 0, 1, 59, 60, 3599, 3600, 43199, 43200, 86340, 86399 };
+			static const int sods_z[] = { 72000 };
+			const int* sods = Z ? sods_z : T ? sods_t : sods_q; int ns = Z ? 1 : T ? 10 : 3;
+			for (uint64_t i = blk * CH; i < (blk + 1) * CH && i < ndays; i++)
+				for (int k = 0; k < ns; k++) check_instant(DAY0 + (int64_t)i, sods[k], Z ? (T ? 2 : 0) : (T || sods[k] == 43200) ? 2 : 1);
+		});
+		//     zone pass, both tiers: every day of the boundary years with all texts, at three times of day
+		if (Z) vf::parallel(sizeof ys / sizeof *ys, [&](uint64_t i) {
+			for (int64_t d = days_from_civil(ys[i], 1, 1); d <= days_from_civil(ys[i], 12, 31); d++) { check_instant(d, 0, 2); check_instant(d, 68399, 2); check_instant(d, 72000, 2); }
+		});
+
+		phase(Z ? "a_tz" : "a");
+		// (b) every second of the 200 fixed days, all texts on every 61st second (thorough, UTC pass: on every second); zone pass, quick: only every 61st second
+		vf::parallel(days.size(), [&](uint64_t i) { for (int s = 0; s < 86400; s++) { bool f = (T && !Z) || s % 61 == 0; if (Z && !T && !f) continue; check_instant(days[i], s, f ? 2 : 0); } });
+		phase(Z ? "b_tz" : "b");
+
+		// (c) instants with fractions around second/day/year boundaries: a grid of fractions, and the doubles within 3 steps of the
+		//     millisecond-rounding ties x.0005, x.4995, x.9995
+		static const double fr[] = { 0, .0004, .0006, .001, .25, .4994, .4996, .5, .75, .999, .9994, .9996, .99996 };
+		vf::parallel(bases.size(), [&](uint64_t i) {
+			for (size_t k = 0; k < sizeof fr / sizeof *fr; k++) check_fraction(bases[i] + fr[k], false);
+			ties(bases[i] + 0.0005, 3, false); ties(bases[i] + 0.4995, 3, false); ties(bases[i] + 0.9995, 3, false);
+		});
+		//     the ties half a millisecond before every year start and at the end of its first second (zone pass: quick skips)
+		if (!Z || T) vf::parallel(9999, [&](uint64_t i) {
+			double t0 = (double)days_from_civil((int64_t)i + 1, 1, 1) * 86400.0;
+			ties(t0 - 0.0005, 3, false); ties(t0 + 0.9995, 3, false);
+		}, 16);
+		//     thorough: the tie before every day start, and the tie before every second of the 200 fixed days
+		if (T && !Z) {
+			vf::parallel((ndays + CH - 1) / CH, [&](uint64_t blk) {
+				for (uint64_t i = blk * CH; i < (blk + 1) * CH && i < ndays; i++) ties((double)(DAY0 + (int64_t)i) * 86400.0 - 0.0005, 3, true);
+			});
+			vf::parallel(days.size() * 24, [&](uint64_t j) {
+				int64_t d = days[j / 24]; int h = (int)(j % 24);
+				for (int s = h * 3600; s < (h + 1) * 3600; s++) ties((double)d * 86400.0 + s - 0.0005, 1, true);
+			});
+		}
+
+		phase(Z ? "c_tz" : "c");
+		// (d) every zone offset -23:59 .. +23:59 in the spellings +hh:mm and +hhmm, every whole hour as +hh, on a few instants;
+		//     with and without seconds; offset 0 also as "Z" and without zone (local time)
+		vf::parallel(2 * 1439 + 1, [&](uint64_t i) {
+			int off = (int)i - 1439;
+			int64_t ds[] = { days_from_civil(2021, 11, 29), days_from_civil(1970, 1, 1), days_from_civil(2000, 2, 29), days_from_civil(1, 1, 2), days_from_civil(9999, 12, 30) };
+			for (int sp = 0; sp < 3; sp++) {
+				if (sp == 2 && off % 60 != 0) continue;
+				for (size_t k = 0; k < 5; k++) { check_zone(off, sp, ds[k], 0); check_zone(off, sp, ds[k], 84670); check_zone(off, sp, ds[k], 84660); }
+			}
+		}, 32);
+
+		// (e) fractional seconds of 1..9 digits with every zone form
+		vf::parallel(9 * 6, [&](uint64_t i) { check_fracdigits((int)(i / 6) + 1, (int)(i % 6), days_from_civil(2021, 11, 29), 84670); check_fracdigits((int)(i / 6) + 1, (int)(i % 6), days_from_civil(1969, 12, 31), 86399); });
+		phase(Z ? "de_tz" : "de");
+	}
+	set_zone(false);
 
 	// (f) parser robustness
 	//   all strings of length <= 5 over the alphabet (both parsers)
-	uint64_t n5 = 1; for (int i = 0; i < 5; i++) n5 *= NALPHA;
 	vf::parallel(NALPHA * NALPHA, [&](uint64_t pre) {
 		for (int len = 0; len <= 5; len++) {
 			if (len < 2) { if (pre != 0) continue; }
@@ -311,8 +582,26 @@ int main(int argc, char** argv) {
 				}
 		}
 	});
-	vf::sample("instant 0001-01-01T00:00:00Z .. 9999-12-31T23:59:59Z: splitUTC, Date(UTC,fields), LONG/SHORT/HTTP/FULL format->parse");
-	vf::sample("Date('2021-11-29T23:31:10-23:59'), Date('20211129T233110.049999999+01:30'), Date(86399.9996).toUTCString(FULL)");
-	vf::sample("parse edits: 'Tue, 30 Nov 2021 00:31:10 GMT' with every 1- and 2-edit (substitute/delete/insert over \"" + std::string(ALPHA) + "\") and every truncation");
+	phase("f_edits");
+	//   structure vectors, body lengths 8..22 (quick: 4 classes x 8 tails; thorough: 6 classes x 16 tails), total lengths 8..40;
+	//   the templates with every tail (the HTTP form reaches lengths 32..47)
+	{
+		const char* cls = T ? "1-:T.+" : "1-:T"; int ncls = T ? 6 : 4, ntails = T ? 16 : 8;
+		struct SJ { int lb; uint64_t v0, v1; };
+		std::vector<SJ> sj;
+		for (int lb = 8; lb <= 22; lb++) {
+			uint64_t n = 1; for (int i = 0; i < NSPOS && SPOS[i] < lb; i++) n *= ncls;
+			for (uint64_t v = 0; v < n; v += 4096) { SJ j = { lb, v, std::min(n, v + 4096) }; sj.push_back(j); }
+		}
+		vf::parallel(sj.size(), [&](uint64_t i) { for (uint64_t v = sj[i].v0; v < sj[i].v1; v++) shape_family(sj[i].lb, v, cls, ncls, ntails); });
+		vf::parallel(tp.size(), [&](uint64_t i) { for (int k = 0; k < 16; k++) for (int md = 0; md <= 4; md++) parse_one(tp[i] + TAILS[k], md); });
+	}
+	phase("f_vectors");
+	detm_finish(detm, "");
+	phase("determinism");
+	vf::setinfo("phase_wall_cpu_s", vf::jstr(phases));
+	vf::sample("instant 0001-01-01T00:00:00Z .. 9999-12-31T23:59:59Z: splitUTC, Date(UTC,fields), LONG/SHORT/HTTP/FULL format->parse; again under TZ=VRF-05 (UTC+5) with local texts and Date(fields) shifted by 18000 s");
+	vf::sample("Date('2021-11-29T23:31-23:59'), Date('20211129T233110.049999999-01'), Date(1000000000.9995 -3..+3 ulp).toUTCString(FULL), tie before every year start e.g. Date(-62104060800.00051)");
+	vf::sample("parse edits: 'Tue, 30 Nov 2021 00:31:10 GMT' with every 1- and 2-edit (substitute/delete/insert over \"" + std::string(ALPHA) + "\") and every truncation; structure vectors e.g. '1111-11T11:11:11:111+01:30'");
 	return vf::finish();
 }
